@@ -56,9 +56,18 @@ impl Distribution for Gamma {
     ///
     /// # Remarks
     /// Uses the algorithm from Marsaglia and Tsang 2000. Applies the squeeze
-    /// method and has nearly constant average time for `alpha >= 1`.
+    /// method and has nearly constant average time for `alpha >= 1`. For `alpha < 1`, a
+    /// Gamma(alpha + 1) variate is sampled and then scaled by `U^(1 / alpha)`.
     fn sample(&self) -> f64 {
-        let d = self.alpha - 1. / 3.;
+        let (alpha, boost) = if self.alpha < 1. {
+            (
+                self.alpha + 1.,
+                self.uniform_gen.sample().powf(1. / self.alpha),
+            )
+        } else {
+            (self.alpha, 1.)
+        };
+        let d = alpha - 1. / 3.;
         loop {
             let (x, v) = loop {
                 let x = self.normal_gen.sample();
@@ -69,10 +78,10 @@ impl Distribution for Gamma {
             };
             let u = self.uniform_gen.sample();
             if u < 1. - 0.0331 * x.powi(4) {
-                return d * v / self.beta;
+                return boost * d * v / self.beta;
             }
             if u.ln() < 0.5 * x.powi(2) + d * (1. - v + v.ln()) {
-                return d * v / self.beta;
+                return boost * d * v / self.beta;
             }
         }
     }
